@@ -10,7 +10,10 @@ TITLE = "Value pools offer exactly the admissible qualifiers and judge input by 
 ENGINE = "e1-bounded-enumeration"
 
 # role placeholders: {f} = the key that is FULFILLED under the content evaluation result, {u} UNFULFILLED, {q} UNKNOWN
-ENTRY_MENU = ["X [{f}]", "X [{u}]", "X [{q}]", "X [501]", "X [{f}] O [501]", "X", "Muss [{u}] Kann [{f}]"]
+ENTRY_MENU = ["X [{f}]", "X [{u}]", "X [{q}]", "X [501]", "X [{f}] O [501]", "X", "Muss [{u}] Kann [{f}]", "X [1P]"]
+# "[1P]" is a package whose expression depends on the package-table variant of the execution: the SAME pool is validated under
+# different tables within one process (a package is context, not part of the expression string)
+PACKAGE_TABLES = [{"1P": "[{f}]"}, {"1P": "[{u}] O [{q}]"}, {"1P": "[{f}] U [{u}]"}]
 QUALS = ["E01", "Z02", "A3", "B4"]
 SEGMENTS = [("IS_REQUIRED", "Muss"), ("IS_OPTIONAL", "Kann"), ("IS_FORBIDDEN", "Muss [{u}]")]
 BOUNDS = {"quick": {"max_size": 3, "cers": 2, "interleave": 1}, "thorough": {"max_size": 4, "cers": 6, "interleave": 1}}
@@ -19,11 +22,13 @@ BOUNDS = {"quick": {"max_size": 3, "cers": 2, "interleave": 1}, "thorough": {"ma
 def describe(tier):
     b = BOUNDS[tier]
     return {
-        "rule": f"every value pool of size 0..{b['max_size']} whose entry expressions range over ALL tuples from the 7-entry menu {ENTRY_MENU} "
+        "rule": f"every value pool of size 0..{b['max_size']} whose entry expressions range over ALL tuples from the 8-entry menu {ENTRY_MENU} "
                 "(fulfilled, unfulfilled, undetermined, neutral-only, invalid, bare, two-part) x every entered input in {None, '', each "
                 "qualifier, a foreign value} x segment status in {required, optional, forbidden} through validate_data_element_valuepool "
                 f"directly AND through validate_segment ('Muss' / 'Kann' / 'Muss [2]') x {b['cers']} content evaluation results; plus pools of "
-                "size 5 in which entries share expressions in interleaved order. Oracle: offered values == pool-ordered qualifiers whose "
+                "size 5 in which entries share expressions in interleaved order, and WIDE pools of 6, 7, 9 and 12 entries that are all "
+                "unfulfilled (fulfilled) except at <= 2 positions (deviation-bounded); entries that use a package are validated under three "
+                "different package tables within one process. Oracle: offered values == pool-ordered qualifiers whose "
                 "own evaluation is fulfilled (a single entry is always offered; an invalid entry is selectable), compared as an ORDERED "
                 "list; accepted <=> offered (status *_AND_FILLED, flag True); a non-empty value that is not offered is flagged (flag False) "
                 "and reported *_AND_EMPTY; nothing offered => exactly IS_FORBIDDEN whatever was entered; forbidden segment => IS_FORBIDDEN "
@@ -45,6 +50,8 @@ def plan(tier, seed):
                 for first in itertools.product(range(len(ENTRY_MENU)), repeat=size - 2):
                     items.append({"cer": cer, "size": size, "first": list(first)})
         items.append({"cer": cer, "size": 5, "first": "interleaved"})
+        for size in (6, 7, 9, 12):
+            items.append({"cer": cer, "size": size, "first": "wide"})
     return items
 
 
@@ -52,7 +59,10 @@ def worker_init():
     H.init()
 
 
-def check_case(exprs, inp, seg, cer, via):
+_OWN = {}
+
+
+def check_case(exprs, inp, seg, cer, via, pv=0):
     """via = 'direct' (validate_data_element_valuepool) or 'segment' (validate_segment)"""
     V = H.init()
     I = H.I
@@ -63,8 +73,21 @@ def check_case(exprs, inp, seg, cer, via):
     pool = {"kind": "pool", "id": "DE", "input": inp, "entries": entries}
     seg_status, seg_expr = SEGMENTS[seg]
     seg_expr = seg_expr.format(**rk)
-    case = {"exprs": list(exprs), "input": inp, "segment": seg, "cer": cer, "via": via}
-    exp_status, exp_flag, exp_off = R7.pool_result(pool, seg_status, H.own_for(cer))
+    case = {"exprs": list(exprs), "input": inp, "segment": seg, "cer": cer, "via": via, "pv": pv}
+    packages = {k: v.format(**rk) for k, v in PACKAGE_TABLES[pv].items()}
+
+    def envf():
+        e = H.env(cer)
+        e.packages = dict(packages)
+        return e
+
+    def own(expr, text):
+        key = (expr, text, cer, pv)
+        if key not in _OWN:
+            _OWN[key] = V.own_evaluation(expr, text, envf())
+        return _OWN[key]
+
+    exp_status, exp_flag, exp_off = R7.pool_result(pool, seg_status, own)
 
     def v(kind, exp, obs, msg=""):
         out.append({"kind": kind, "case": case, "expected": exp, "observed": obs,
@@ -73,13 +96,13 @@ def check_case(exprs, inp, seg, cer, via):
     if via == "direct":
         def call():
             el = V.build_element(pool)
-            return V.observe([I.run(V.validate_data_element_valuepool(el, V.STATUS[seg_status]), H.env(cer))])[0]
+            return V.observe([I.run(V.validate_data_element_valuepool(el, V.STATUS[seg_status]), envf())])[0]
 
         r = I.try_call(call)
     else:
         def call():
             s = V.build_segment({"kind": "segment", "id": "SEG", "expr": seg_expr, "elements": [pool]})
-            return V.observe(I.run(V.validate_segment(s), H.env(cer)))
+            return V.observe(I.run(V.validate_segment(s), envf()))
 
         r = I.try_call(call)
     if r[0] == "exc":
@@ -131,6 +154,19 @@ def run_item(item):
     if item["first"] == "interleaved":
         menus = [["X [{f}]", "X", "X [{u}]", "X [{f}]", "X"], ["X [{u}]", "X [{f}]", "X [{u}]", "X [{f}]", "X [501]"],
                  ["X", "X [{f}]", "X", "X [{f}]", "X [{q}]"], ["Muss [{u}] Kann [{f}]", "X [{f}]", "Muss [{u}] Kann [{f}]", "X [{u}]", "X [{f}]"]]
+    elif item["first"] == "wide":
+        # wide pools, deviation-bounded: every entry unfulfilled (resp. fulfilled) except at <= 2 positions
+        menus = []
+        for base, other in (("X [{u}]", "X [{f}]"), ("X [{f}]", "X [{u}]"), ("X [{u}]", "X [1P]")):
+            menus.append([base] * size)
+            for i in range(size):
+                one = [base] * size
+                one[i] = other
+                menus.append(one)
+                for j in range(i + 1, size):
+                    two = list(one)
+                    two[j] = other
+                    menus.append(two)
     elif item["first"] is None:
         menus = itertools.product(ENTRY_MENU, repeat=size)
     else:
@@ -138,10 +174,13 @@ def run_item(item):
         menus = (pre + list(rest) for rest in itertools.product(ENTRY_MENU, repeat=2))
     for exprs in menus:
         exprs = list(exprs)
-        for inp in _inputs(len(exprs)):
+        inputs = _inputs(len(exprs))
+        if item["first"] == "wide":
+            inputs = [None, QUALS[0], f"Q{len(exprs) - 1}", f"Q{len(exprs) - 6}" if len(exprs) > 6 else QUALS[1], "ZZ9"]
+        for inp in inputs:
             for seg in range(3):
-                for via in ("direct", "segment"):
-                    vs = check_case(exprs, inp, seg, item["cer"], via)
+                for via, pv in (("direct", 0), ("segment", 0)) + ((("direct", 1), ("direct", 2)) if "X [1P]" in exprs else ()):
+                    vs = check_case(exprs, inp, seg, item["cer"], via, pv)
                     r.evaluations += 1
                     r.states += 1
                     r.transitions += 1
@@ -155,4 +194,4 @@ def run_item(item):
 
 
 def replay(case):
-    return check_case(case["exprs"], case["input"], case["segment"], case["cer"], case["via"])
+    return check_case(case["exprs"], case["input"], case["segment"], case["cer"], case["via"], case.get("pv", 0))
